@@ -401,6 +401,7 @@ pub fn run(a: &Args) -> Option<Report> {
     match a.leg.as_str() {
         "seq" => Some(run_seq(a)),
         "gate" => Some(run_gate(a)),
+        "gate-big" => Some(run_gate_big(a)),
         "random" => Some(run_random(a)),
         "stress" => Some(run_stress(a)),
         "drops" | "asan-drops" | "miri-drops" => Some(run_drops(a)),
@@ -615,6 +616,35 @@ fn run_gate(a: &Args) -> Report {
     rep.count("interleaving_signatures", sigset.len() as u64);
     for (k, v) in win {
         rep.count(&k, v);
+    }
+    rep
+}
+
+/// A clear covering dozens of blocks while a snapshot reader (or an is_empty poll) that has already loaded the tail
+/// pointer is parked: the detached blocks must stay readable until the reader is done (deferred reclamation). Run
+/// natively (values must be the pushed ones) and under memcheck / ASan (the access itself is judged).
+fn run_gate_big(a: &Args) -> Report {
+    let mut rep = Report::new("C05", &a.leg, a.seed);
+    let mut r = Rng::new(a.shard_seed());
+    let mut sigset = HashSet::new();
+    let mut win: HashMap<String, u64> = HashMap::new();
+    let rounds = a.budget(4, 40);
+    for round in 0..rounds {
+        let prefill = 64 * (33 + r.usize(8)) + r.usize(64);
+        let rk: u8 = if round % 2 == 0 { 1 } else { 3 };
+        let point = if rk == 1 { "bucket.data.after_tail_load" } else { "@start" };
+        let roles = vec![(rk, gen_program(&mut r, rk, 1)), (2u8, gen_program(&mut r, 2, 1))];
+        let rules = if rk == 1 {
+            vec![Rule::new(0, point, 1, 1, "@done", 1), Rule::new(1, "@start", 1, 0, point, 1)]
+        } else {
+            vec![Rule::new(1, "@start", 1, 0, "@start", 1)]
+        };
+        let sched = jo! {"large_clear_vs_parked_reader" => true, "prefill" => prefill, "reader_kind" => rk as u64};
+        let ex = execute(&mut r, prefill, roles, Policy::Gate(rules), true, true);
+        if ex.unsat == 0 && ex.expired == 0 {
+            rep.count("gate-hit:large-clear-while-reader-holds-the-tail-pointer", 1);
+        }
+        report_exec(&mut rep, &ex, &mut sigset, &mut win, "gate", sched);
     }
     rep
 }
